@@ -18,6 +18,11 @@ step forms:  ["deltag", t, "ID"]  line.delete("ID");  ["settag", t, "ID", None] 
 where target is an identifier ("A") or "@RT:idx" (idx-th non-virtual line of that record type, modulo the
 number of such lines).
 
+Optional generator features (repeated lines, dropid, retag = remove a tag and set it again with another type, refused
+values for new tags, header lines refused next to their VN tag, header-first prelude for a Gfa of unknown version) are
+switched on per property through profile(); they are listed in the comment above profile().  Without them the
+generated histories are what they always were.
+
 Nothing in here looks at gfapy internals; the text model does not use gfapy at all.
 """
 import re
@@ -568,6 +573,26 @@ PROFILE = {
 #                                                                                                label dropid:<RT>
 #   fails["rename-placeholder"]=w   a rename to an identifier that is mentioned but not defined
 #                                                                                  label fail:rename-placeholder:<RT>
+#   ops["retag"]=w       a tag is removed and then set again to a value of another type, as two consecutive steps on the
+#                        same line: ["deltag", t, tag] (or, with probability retag_setnone, ["settag", t, tag, None]) then
+#                        ["settag", t, tag, v] with v a string where the tag held an integer and vice versa; when no
+#                        line carries a tag, a step that creates one comes first
+#                                                          labels settag, retag:del | retag:setnone, retag:set:<i|Z>
+#   retag_setnone=p      see ops["retag"] (default 0: the tag is always removed with delete())
+#   fails["tag-value"]=w (validation level 3 only) a tag that the line does not have is set to a value that is refused
+#                        for the datatype its class implies (string with a tab / newline / non-printable character,
+#                        empty string, empty list, boolean); 70%: followed, as a second step, by a legal set of the
+#                        same tag to a value of another class        labels fail:tag-value, settag:after-refused
+#   fails["header-vn-conflict"]=w   a header line that names the version of the history in a VN tag and is refused for
+#                        another of its tags: a second TS value, or (validation level >= 2) a second datatype for a tag
+#                        defined before                                            label fail:header-vn-conflict
+#   header_first=p       with probability p the history starts with a prelude that is meant for a Gfa whose version is
+#                        still unknown: an optional comment, one or two header lines without VN (TS and/or custom
+#                        tags), optionally (GFA1) one or two L/C/P lines (they wait in the queue of such a Gfa), and
+#                        then a refused header line as under fails["header-vn-conflict"] (30%: naming the other
+#                        version).  gen_case(..., p_unknown > 0) makes such a case one with the version unknown.
+#                                                     labels add:<RT>:prelude ... fail:header-vn-conflict
+# gen_fail / gen_mutation may return a list of (step, label) pairs instead of one pair: the steps follow each other.
 def profile(**kw):
     p = dict(PROFILE)
     p["ops"] = dict(PROFILE["ops"]); p["fails"] = dict(PROFILE["fails"])
@@ -816,6 +841,110 @@ def _line_with_id(rng, m, rt, n, prof):
 
 IDENTIFIED = {"gfa1": ["S", "L", "C", "P"], "gfa2": ["S", "E", "G", "O", "U"]}
 
+# values that are refused (validation level 3) when a tag is created with them, with the datatype their class implies,
+# and values of another class that are accepted for a new tag
+REFUSED_TAG_VALUES = [("a\tb", "Z"), ("x\ny", "Z"), ("", "Z"), ("caf\u00e9", "Z"), ([], "B"), (True, "i"), ([True], "B")]
+NEW_TAG_NAMES = ["zq", "xy", "qq"]
+
+
+def _line_targets(rng, m, pred=None):
+    """targets (identifier, else '@RT:idx') of the records that are no header / comment (and satisfy pred)"""
+    out = []
+    cnt = {}
+    for r in m.recs:
+        j = cnt.get(r[0], 0)
+        cnt[r[0]] = j + 1
+        if r[0] in "H#" or r[0] == UNKNOWN_RT:
+            continue
+        if pred is not None and not pred(r):
+            continue
+        n = rec_id(r, m.v)
+        out.append((n if n is not None else "@%s:%d" % (r[0], j), r))
+    return out
+
+
+def gen_tag_value(rng, m):
+    """-> [(step, label), ...]: a refused value for a tag the line does not have, optionally followed by an accepted
+    value of another class for the same tag (None if there is no line)"""
+    c = _line_targets(rng, m)
+    if not c:
+        return None
+    t, r = rng.choice(c)
+    have = {x[:2] for x in rec_tags(r, m.v)}
+    free = [x for x in NEW_TAG_NAMES if x not in have]
+    if not free:
+        return None
+    tag = rng.choice(free)
+    bad, dt = rng.choice(REFUSED_TAG_VALUES)
+    out = [(["settag", t, tag, bad], "fail:tag-value")]
+    if rng.chance(0.7):
+        good = rng.choice([5, 12, 7]) if dt == "Z" or (dt == "B" and rng.chance(0.5)) else rng.choice(["hello", "w1"])
+        out.append((["settag", t, tag, good], "settag:after-refused"))
+    return out
+
+
+def gen_header_vn_conflict(rng, m, prof, other_version=0.0):
+    """-> (step, label): a header line with a VN tag (the version of the history; with probability other_version the
+    other one) that contradicts the header lines so far in another tag (None if nothing can be contradicted)"""
+    ts = [t for r in m.recs if r[0] == "H" for t in r[1:] if t.startswith("TS:")]
+    seen = {}
+    for r in m.recs:
+        if r[0] == "H":
+            for t in r[1:]:
+                if t[:2] not in ("VN", "TS"):
+                    seen.setdefault(t[:2], set()).add(t[3])
+    once = sorted(n for n, d in seen.items() if len(d) == 1) if prof.get("_vlevel", 1) >= 2 else []
+    if not ts and not once:
+        return None
+    vn = "1.0" if m.v == "gfa1" else "2.0"
+    if rng.chance(other_version):
+        vn = "2.0" if vn == "1.0" else "1.0"
+    vn = "VN:Z:" + vn
+    if ts and (not once or rng.chance(0.6)):
+        bad = "TS:i:77" if ts[0] != "TS:i:77" else "TS:i:78"
+    else:
+        n = rng.choice(once)
+        bad = "%s:Z:foo" % n if "Z" not in seen[n] else "%s:i:7" % n
+    c = ["H\t%s\t%s" % (vn, bad), "H\t%s\t%s" % (bad, vn), "H\t%s\tzz:i:1\t%s" % (vn, bad), "H\t%s\t%s" % (vn, bad)]
+    return ["add", rng.choice(c)], "fail:header-vn-conflict"
+
+
+def gen_header_prelude(rng, m, prof):
+    """-> [(step, label), ...] (see profile entry header_first); the model m is brought up to date"""
+    out = []
+    v = m.v
+
+    def put(text, lab):
+        out.append((["add", text], lab))
+        m.add(text)
+    if rng.chance(0.3):
+        put("# c%d" % rng.randint(1, 9), "add:#:prelude")
+    kinds = ["ts"] if prof.get("_vlevel", 1) < 2 else rng.choice([["ts"], ["dt"], ["ts", "dt"], ["dt", "ts"]])
+    for kd in kinds:
+        if kd == "ts":
+            put("H\tTS:i:3", "add:H:prelude")
+        else:
+            put(rng.choice(["H\taa:i:%d" % rng.randint(1, 3), "H\tab:Z:hi", "H\taa:i:1\tab:Z:x"]), "add:H:prelude")
+    if v == "gfa1" and rng.chance(0.5):
+        for _ in range(rng.choice([1, 1, 2])):
+            a, b = rng.choice(SEGS), rng.choice(SEGS)
+            k = rng.choice("LLCP")
+            if k == "L":
+                t = "L\t%s\t%s\t%s\t%s\t*" % (a, rng.choice("+-"), b, rng.choice("+-"))
+            elif k == "C":
+                t = "C\t%s\t+\t%s\t%s\t0\t*" % (a, b, rng.choice("+-"))
+            else:
+                n = _unused(rng, m, PATH_IDS)
+                if n is None:
+                    continue
+                t = "P\t%s\t%s+,%s+\t*" % (n, a, b)
+            if m.copy().add(t) == "ok":
+                put(t, "add:%s:prelude" % k)
+    got = gen_header_vn_conflict(rng, m, prof, other_version=0.3)
+    if got is not None:
+        out.append(got)
+    return out
+
 
 def gen_fail(rng, m, prof):
     """-> (step, label) of a call meant to raise in the model's current state (None if none is possible)"""
@@ -978,6 +1107,20 @@ def gen_fail(rng, m, prof):
                 c = ["E\t*\t%s+\t%s-\t0\t5\t5\t10$\t*" % (x, y), "G\t*\t%s+\t%s+\t5\t*" % (x, y),
                      "F\t%s\tr1+\t0\t5\t0\t5\t*" % n]
             return ["add", rng.choice(c)], "fail:mention-nonsegment"
+        if k == "tag-value":
+            # optional (no weight by default): a new tag with a value that is refused at validation level 3
+            if prof.get("_vlevel", 1) < 3:
+                continue
+            got = gen_tag_value(rng, m)
+            if got is None:
+                continue
+            return got
+        if k == "header-vn-conflict":
+            # optional (no weight by default)
+            got = gen_header_vn_conflict(rng, m, prof)
+            if got is None:
+                continue
+            return got
         if k == "illegal-edit":
             c = []
             for rt, fields in (("L", [("from_segment", "D"), ("to_orient", "-"), ("overlap", "7M")]),
@@ -1059,6 +1202,27 @@ def gen_mutation(rng, m, prof, op):
         if not free:
             return None
         return ["rename", a, rng.choice(free)], "rename:" + rt
+    if op == "retag":
+        # optional (no weight by default): remove a tag, then set it to a value of another type
+        c = [(t, x) for t, r in _line_targets(rng, m) for x in rec_tags(r, m.v) if x[:2] in ("xx", "yy") and x[3] in "iZ"]
+        out = []
+        if c:
+            t, x = rng.choice(c)
+            tag, old = x[:2], x[3]
+        else:
+            c = _line_targets(rng, m)
+            if not c:
+                return None
+            t = rng.choice(c)[0]
+            tag, old = rng.choice([("xx", "i"), ("xx", "i"), ("yy", "Z")])
+            out.append((["settag", t, tag, rng.randint(1, 9) if old == "i" else "w%d" % rng.randint(1, 9)], "settag"))
+        if rng.chance(prof.get("retag_setnone", 0.0)):
+            out.append((["settag", t, tag, None], "retag:setnone"))
+        else:
+            out.append((["deltag", t, tag], "retag:del"))
+        new = rng.choice(["w%d" % rng.randint(1, 9), "12", "7"]) if old == "i" else rng.randint(1, 9)
+        out.append((["settag", t, tag, new], "retag:set:" + ("Z" if old == "i" else "i")))
+        return out
     if op == "settag":
         t = anytarget()
         if t is None:
@@ -1116,13 +1280,16 @@ def _closing_steps(rng, m):
 
 
 # calls that the library refuses at the validation level they are generated for, but that the text model would apply
-NOAPPLY = {"fail:header-dt", "fail:rename-invalid", "fail:path-short-overlaps"}
+NOAPPLY = {"fail:header-dt", "fail:rename-invalid", "fail:path-short-overlaps", "fail:tag-value", "fail:header-vn-conflict"}
 
 
 def gen_history(rng, v, nsteps, prof, max_total=None):
     m = TextModel(v)
     hist, labels = [], []
     nbuild = max(2, int(nsteps * rng.choice([0.3, 0.4, 0.5])))
+    if prof.get("header_first") and rng.chance(prof["header_first"]):
+        for step, lab in gen_header_prelude(rng, m, prof):
+            hist.append(step); labels.append(lab)
     for k in range(nsteps):
         got = None
         if rng.chance(prof["p_fail"]) and k > 0:
@@ -1137,10 +1304,10 @@ def gen_history(rng, v, nsteps, prof, max_total=None):
             if got is None:
                 g = gen_add(rng, m, prof)
                 got = (["add", g[0]], g[1]) if g else (["add", "# filler"], "add:#")
-        step, lab = got
-        hist.append(step); labels.append(lab)
-        if lab not in NOAPPLY:
-            m.apply(step)
+        for step, lab in (got if isinstance(got, list) else [got]):
+            hist.append(step); labels.append(lab)
+            if lab not in NOAPPLY:
+                m.apply(step)
     if rng.chance(prof["close"]):
         for t in _closing_steps(rng, m):
             if max_total is not None and len(hist) >= max_total:
@@ -1162,6 +1329,8 @@ def gen_case(rng, tier, prof, p_unknown=0.0, vlevels=(1,)):
     nsteps = rng.randint(4, maxs - 5) if rng.chance(0.5) else rng.randint(4, 14)
     hist, labels = gen_history(rng, flavour, nsteps, prof, max_total=maxs)
     version = None if rng.chance(p_unknown) else flavour
+    if p_unknown > 0 and labels and labels[0].endswith(":prelude"):
+        version = None  # the prelude (profile entry header_first) is meant for a Gfa of unknown version
     return {"version": version, "flavour": flavour, "vlevel": vlevel, "hist": hist, "labels": labels}
 
 
